@@ -4,7 +4,7 @@ From Coq Require Import String List NArith ZArith Bool.
 From J5V.lib Require Import Outcome Json JsonPrint Base64 Civil.
 From J5V.model Require Import CodecTypes CodecEnc CodecEncSpec.
 From J5V.gen Require ReadmeGen EncSwitchGen.
-From J5V.proofs Require Import CodecEncProofs CodecEncLex CodecEncEmbed CodecEncPresence.
+From J5V.proofs Require Import CodecEncProofs CodecEncLex CodecEncEmbed CodecEncPresence CodecEncSpecDet.
 Import ListNotations.
 Local Open Scope N_scope.
 
@@ -204,6 +204,15 @@ Theorem C08_any_type_value : forall f env pb v j, wire_value f env (FAny pb) v j
                (forall s, pb = false -> msg_get 3 m = Some (VBytes s) -> strict_parse s = Some jv).
 Proof. exact spec_any_framing. Qed.
 Print Assumptions C08_any_type_value.
+(* The specification leaves no freedom inside the documented domain: for a value whose scalars are
+   all in-domain and whose Any values store JSON text, at most one tree satisfies the wire format —
+   so "the encoder's output satisfies wire_format" pins the output completely. *)
+Theorem C08_wire_format_deterministic : forall fmt_float env root m j1 j2,
+  (forall ps, lookup env root = Some (SObject ps) \/ lookup env root = Some (SOneof ps) -> pinned_props fmt_float env ps m) ->
+  wire_format fmt_float env root m j1 -> wire_format fmt_float env root m j2 -> j1 = j2.
+Proof. exact wire_format_deterministic. Qed.
+Print Assumptions C08_wire_format_deterministic.
+
 (* "unset members are omitted": what set means, independently of the encoder's walk — the proto path
    leads through populated message fields to a populated field; an exposed oneof is set when exactly
    one of its members is *)
